@@ -80,3 +80,16 @@ def chunk_parent(it, genome, start, end, seq_id="chr1", alphabet="NT_EXTENDED_GA
     seq = mk_sequence(it, genome[start:end], alphabet, id=f"{seq_id}:{start}-{end}", type=st["SEQUENCE_CHUNK"],
                       parent=mk_parent(it, location=loc))
     return mk_parent(it, id=f"{seq_id}:{start}-{end}", sequence=seq)
+
+
+def mk_gene(it, transcripts, **kw):
+    return it.apply(ClassTok("GeneInterval"), [], dict(transcripts=list(transcripts), **kw), None, 0)
+
+
+def mk_feature_collection(it, features, **kw):
+    return it.apply(ClassTok("FeatureIntervalCollection"), [], dict(feature_intervals=list(features), **kw), None, 0)
+
+
+def mk_collection(it, genes=None, feature_collections=None, **kw):
+    return it.apply(ClassTok("AnnotationCollection"), [], dict(genes=genes, feature_collections=feature_collections, **kw),
+                    None, 0)
